@@ -193,6 +193,10 @@ static void check_number(const std::string& num, vr::Ctx& ctx, bool have_exact =
   }
 }
 
+static const char* n9base[10] = {"2147483648", "4294967296", "9223372036854775808", "18446744073709551616", "36893488147419103232", "55340232221128654848", "10000000000000000000", "100000000000000000000",
+    "184467440737095516160", "340282366920938463463374607431768211456"};
+static const char* n9mant[6] = {"1", "5", "0", "1.5", "123456789012345678901", "0.0001"};
+
 int main(int argc, char** argv) {
   vr::Args args = vr::parse_args(argc, argv);
   vr::Runner R(args);
@@ -490,6 +494,34 @@ int main(int argc, char** argv) {
       check_number(Y, ctx);
       return;
     }
+    if (nm[1] == '9') {
+      unsigned sg = (unsigned)(idx % 3);
+      idx /= 3;
+      unsigned mi = (unsigned)(idx % 6);
+      idx /= 6;
+      int d = (int)(idx % 681) - 340;
+      std::string e = n9base[idx / 681];
+      // decimal string + small signed integer
+      {
+        int carry = d;
+        for (size_t i = e.size(); i-- > 0 && carry != 0;) {
+          int v = (e[i] - '0') + carry;
+          carry = 0;
+          while (v < 0) {
+            v += 10;
+            carry--;
+          }
+          carry += v / 10;
+          e[i] = (char)('0' + v % 10);
+        }
+      }
+      std::string s = std::string(n9mant[mi]) + (sg == 0 ? "e" : sg == 1 ? "E+" : "e-") + e;
+      if (ctx.want_sample) ctx.sample(s);
+      ctx.nontriv();
+      check_number(s, ctx);
+      check_number("-" + s, ctx);
+      return;
+    }
     if (nm[1] == '8') {
       unsigned form = (unsigned)(idx % 3);
       idx /= 3;
@@ -601,19 +633,27 @@ int main(int argc, char** argv) {
   f7.chunk = 16;
   f7.rule = "ordered pairs (X,Y): X (14 spellings that drive the slow paths into unusual states: >800 digits with non-zero tail, overflow, underflow, malformed) is parsed first, then Y (" + std::to_string(n7y.size()) +
             " rounding-sensitive spellings: exact ties of both parities and their neighbours, classics) is checked as usual: the result for Y must not depend on the history";
+  // N9: exponents written with 10..39 digits whose value lies within 340 of a power of two / ten at which an
+  // accumulator of some width wraps (2^31, 2^32, 2^63, 2^64 and its small multiples, 10^19, 10^20, 2^128)
+  vr::Family f9;
+  f9.name = "N9_exponent_wraparound";
+  f9.count = 10ull * 681 * 6 * 3;
+  f9.group = "N9";
+  f9.chunk = 256;
+  f9.rule = "mantissas {1, 5, 0, 1.5, a 21-digit integer, 0.0001} with exponents B+d for B in {2^31, 2^32, 2^63, 2^64, 2*2^64, 3*2^64, 10^19, 10^20, 10*2^64, 2^128} and d in -340..340, written e / e+ / e-: positive ones overflow (infinity error) unless the mantissa is 0, negative ones give a signed zero";
   vr::Family f8;
   f8.name = "N8_huge_zero_runs";
   f8.count = (uint64_t)n8be.size() * n8pi.size() * 3 * n8z.size() * 3;
   f8.group = "N8";
   f8.chunk = 4;
   f8.rule = "N4 strings (exact tie / below / above) of " + std::to_string(n8be.size()) + " exponents x " + std::to_string(n8pi.size()) + " patterns re-spelled with z zeros for z in {9999..10001, 99999..100001, ... 10^6}: (0) integer mantissa with z trailing zeros and exponent about -z, (1) z trailing fraction zeros, (2) z leading fraction zeros and exponent about +z; expected bits known exactly";
-  fams = {f1, f2, f2b, f3, f3b, f4, f5, f6, f7, f8};
+  fams = {f1, f2, f2b, f3, f3b, f4, f5, f6, f7, f8, f9};
   if (asan) {
     // the ASan pass re-runs the structurally interesting families only
-    fams = {f1, f2b, f4, f5, f6, f7, f8};
+    fams = {f1, f2b, f4, f5, f6, f7, f8, f9};
   }
   if (args.replay) {
-    std::vector<vr::Family> all = {f1, f2, f2b, f3, f3b, f4, f5, f6, f7, f8};
+    std::vector<vr::Family> all = {f1, f2, f2b, f3, f3b, f4, f5, f6, f7, f8, f9};
     return R.replay_one(all, check);
   }
   const std::string only = args.get("only");
